@@ -1196,6 +1196,7 @@ int tls13_process_certificate_list(const uint8_t *cert_list, size_t cert_list_le
 		}
 		if (x509_cert_from_der(&cert, &cert_len, &cert_data, &cert_data_len) != 1
 			|| asn1_length_is_zero(cert_data_len) != 1
+			|| asn1_length_le(*certs_len + cert_len, TLS_MAX_CERTIFICATES_SIZE) != 1
 			|| x509_cert_to_der(cert, cert_len, &certs, certs_len) != 1) {
 			error_print();
 			return -1;
